@@ -684,6 +684,27 @@ def run_id(case) -> Outcome:
                     except Exception as e:
                         bad("update/raises", f"update() after send_periodic(data={data!r}): {type(e).__name__}: {e}")
                 hub.modifiable_tasks = True
+            elif remote and not D:
+                # a periodic remote frame (node guarding) stays a remote frame whatever update() is given
+                for modifiable in (True, False):
+                    hub.modifiable_tasks = modifiable
+                    t1 = len(hub.tasks)
+                    try:
+                        tk = net.send_periodic(can_id, data, period, remote)
+                        tk.update(b"")
+                        tk.update(bytes(_id_data(can_id, 3 + i))[:0])
+                        live = [t for t in hub.tasks[t1:] if t.live]
+                        if len(live) != 1:
+                            bad("update/count", f"{len(live)} live tasks after update() of a remote-frame task "
+                                                f"(modify_data={modifiable})")
+                        elif not live[0].msg.is_remote_frame or live[0].msg.arbitration_id != can_id or \
+                                bool(live[0].msg.is_extended_id) != ext:
+                            bad(f"update/modify_data={modifiable}/remote-flag",
+                                f"after update() the periodic remote frame is {live[0].msg}")
+                        tk.stop()
+                    except Exception as e:
+                        bad("update/raises", f"update() of a remote-frame task: {type(e).__name__}: {e}")
+                hub.modifiable_tasks = True
         try:
             task.stop()
         except Exception as e:
